@@ -731,6 +731,11 @@ Proof.
   apply negb_true_iff in Hc. exact Hc.
 Qed.
 
+(* a Rest.li writer writes a space of a query value as %20: '+' never appears raw in the query flavour (a literal plus is %2B) *)
+Theorem v2_query_output_never_plus : forall s,
+  mem_byte x2b (escape v2_hex_chars v2_unescaped_path_chars v2_unescaped_query_chars v2_header_escaped_chars FQuery s) = false.
+Proof. intros s. unfold escape. apply escape_avoids; [reflexivity | vm_compute; reflexivity]. Qed.
+
 (* ------------------------------------------------------------------------------------------------------------------ *)
 (* 6. nullable unions with no member: the side condition [nonnull] cannot be dropped                                   *)
 (* ------------------------------------------------------------------------------------------------------------------ *)
